@@ -9,6 +9,7 @@ What the assembly changes (and nothing else; anything unexpected -> Undecided):
   W5 `for p in e` becomes `for p in vx_it<k>: e` (names Verus' ghost iterator so invariants can mention it)
   W6 trait-impl methods are emitted in an inherent impl (Verus forbids requires on trait impls); `Self::Item` in the
      signature is replaced by the impl's own `type Item = ..;`
+  W7 `struct_keep`: a struct is reduced to the fields the units under contract read (names and types verbatim, generics dropped)
   W4 requires/ensures/invariant/decreases/proof text from the .vspec file is inserted before the body / loop body /
      a named statement. The .vspec text contains no executable statements.
 """
@@ -161,6 +162,17 @@ def assemble(spec_path, layout):
             if st is None: raise Undecided("lost anchor: struct %s" % item[2])
             parts.append(transform_struct(tree, st) + "\n")
             slices.append({"item": "struct " + item[2], "slice_sha": extract.sha(extract.text_of(tree, st))})
+        elif item[0] == "struct_keep":
+            # W7: a struct reduced to the fields the units under contract read (field names and types verbatim, generics dropped)
+            _, file, name, newname, keep = item
+            tree = extract.vx_dump(extract.src_path(file))
+            st = extract.all_items(tree, "struct").get(name)
+            if st is None: raise Undecided("lost anchor: struct %s" % name)
+            have = {f["name"]: f for f in st["fields"]}
+            miss = [k for k in keep if k not in have]
+            if miss: raise Undecided("lost anchor: fields %r of struct %s" % (miss, name))
+            parts.append("pub struct %s {\n%s}\n" % (newname, "".join("    pub %s: %s,\n" % (k, have[k]["ty"]) for k in keep)))
+            slices.append({"item": "struct %s (fields %s)" % (name, ", ".join(keep)), "slice_sha": extract.sha(extract.text_of(tree, st))})
         elif item[0] == "impl":
             parts.append(item[1] + " {\n")
             for file, path in item[2]:
